@@ -66,14 +66,16 @@ def add_run(ctx, module, cfg, r, count=True):
 
 
 # families whose point is the presence lattice (large): one magnitude profile per file (rotating with the case);
-# the small families run under all four profiles in the thorough tier
+# in the thorough tier params / spaced run under all four profiles, shapes / header (and C08's cases) under two
 BIG_FAMS = {"densepair", "densegroups", "waypair", "relpair", "bodies"}
 
 
 def profiles_for(ctx, case):
     if ctx.quick():
         return "rot1"
-    return "rot1" if case.get("fam") in BIG_FAMS else ("0,1,2,3" if "fam" in case else "rot2")
+    if case.get("fam") in BIG_FAMS:
+        return "rot1"
+    return "0,1,2,3" if case.get("fam") in ("params", "spaced") else "rot2"
 
 
 def execute(ctx, cases, binname="c01"):
